@@ -208,6 +208,41 @@ impl<'tcx> Cx<'tcx> {
                 fields.push(("def_pretty", s(self.pretty(uv.def))));
                 if let Some(p) = uv.promoted {
                     fields.push(("promoted", J::Int(p.as_usize() as i128)));
+                    // a promoted `&NAMED_CONST`: name the constant(s) the promoted body refers to
+                    if uv.def.is_local() {
+                        let proms = self.tcx.promoted_mir(uv.def);
+                        if p.as_usize() < proms.len() {
+                            let pb = &proms[p];
+                            let mut inner = Vec::new();
+                            for bb in pb.basic_blocks.iter() {
+                                for st in &bb.statements {
+                                    if let StatementKind::Assign(b) = &st.kind {
+                                        let (_, rv) = &**b;
+                                        let mut ops: Vec<&Operand<'tcx>> = Vec::new();
+                                        match rv {
+                                            Rvalue::Use(o, _) => ops.push(o),
+                                            Rvalue::Aggregate(_, os) => {
+                                                for o in os.iter() {
+                                                    ops.push(o)
+                                                }
+                                            }
+                                            _ => {}
+                                        }
+                                        for o in ops {
+                                            if let Operand::Constant(c) = o {
+                                                if let Const::Unevaluated(iuv, _) = &c.const_ {
+                                                    if iuv.promoted.is_none() {
+                                                        inner.push(s(self.pretty(iuv.def)));
+                                                    }
+                                                }
+                                            }
+                                        }
+                                    }
+                                }
+                            }
+                            fields.push(("promoted_of", J::Arr(inner)));
+                        }
+                    }
                 }
             }
             _ => {}
